@@ -398,8 +398,7 @@ def order_generator(chk):
 def main(tier="quick", seed=0, bounded=True, proof=True):
     chk = framework.Check("C14", tier, seed, level="proof")
     chk.trusted += [
-        "generate_orders_horton_order enters Grid.moments through its contract (one block of rows per order, documented row counts); the generator itself is proved separately for a symbolic order (number of rows and content of every row, loop contracts)"
-        "exhaustively to order 10 / 40 by the bounded layer, not proved for a symbolic order",
+        "generate_orders_horton_order enters Grid.moments through its contract (one block of rows per order, documented row counts); the generator itself is proved separately for a symbolic order (number of rows and content of every row, loop contracts)",
         "solid_harmonics returns the table of regular solid harmonics with rows in Horton order (C08); row(l, m) = l^2 + (0 | 2m-1 | 2|m|)",
         "the loop over orders is executed for orders = 2 (three blocks; two for pure-radial): the per-block argument is independent of the number of blocks",
         "dipole_moment_of_molecule: bounded layer only; floats are reals, real powers as uninterpreted pow",
